@@ -134,6 +134,14 @@ def extendMany (start : Nat) : List Nat → List (Nat × Nat) → List Nat
     let s := extendSeed start file cur
     s :: extendMany start (file ++ List.replicate rows s) rest
 
+/-- the same history driven by ONE service object, as real callers do: `extend_trial_data_file`
+reseeds the caller's `rss`, so the next extension starts from the seed the previous one ran with -/
+def extendShared (start : Nat) : List Nat → Nat → List Nat → List Nat
+  | _, _, [] => []
+  | file, cur, rows :: rest =>
+    let s := extendSeed start file cur
+    s :: extendShared start (file ++ List.replicate rows s) s rest
+
 /-! ### random streams -/
 
 /-- a `RandomStateService`: the seed it was (re)seeded with and the number of 32-bit words
